@@ -133,7 +133,7 @@ Definition payload (t : dtype) (v : value) : list Z :=
       match t with
       | TInt2 => le 2 i | TInt4 => le 4 i | TBool => [bool_byte (negb (i =? 0))] | _ => le 8 i
       end
-  | VFloat x => le 8 x
+  | VFloat x => match t with TFloat4 => le 4 (f64_to_f32 x) | _ => le 8 x end
   | VText b | VBlob b | VJsonb b | VToast b => b
   | VVector fs => vector_bytes fs
   | VDate d => le 4 d
@@ -149,9 +149,6 @@ Definition payload (t : dtype) (v : value) : list Z :=
   | VEnum a o => le 2 a ++ le 2 o
   end.
 
-Definition nf4 (t : dtype) (v : value) : bool :=
-  match t with TFloat4 => negb (is_vnull v) | _ => false end.
-
 Lemma set_in_builder_payload s st idx t v :
   column s idx = Some t -> fits t v = true -> is_vnull v = false ->
   set_in_builder s st idx v =
@@ -163,11 +160,11 @@ Proof.
 Qed.
 
 Lemma payload_fixed_len t v :
-  fits t v = true -> is_vnull v = false -> is_var t = false -> nf4 t v = false ->
+  fits t v = true -> is_vnull v = false -> is_var t = false ->
   blen (payload t v) = fsz t.
 Proof.
-  intros Hf Hn Hv H4.
-  destruct v; try discriminate Hn; destruct t; try discriminate Hf; try discriminate Hv; try discriminate H4;
+  intros Hf Hn Hv.
+  destruct v; try discriminate Hn; destruct t; try discriminate Hf; try discriminate Hv;
     cbn [payload fsz fixed_size]; rewrite ?blen_app, ?blen_le; try reflexivity;
     cbn [fits] in Hf; lia.
 Qed.
@@ -215,23 +212,19 @@ Proof.
   apply andb_true_iff in H. destruct H as [_ H]. cbn [length]. f_equal. apply IH. exact H.
 Qed.
 
-Lemma fseg_len t v : fits t v = true -> nf4 t v = false -> blen (fseg t v) = fsz t.
+Lemma fseg_len t v : fits t v = true -> blen (fseg t v) = fsz t.
 Proof.
-  intros Hf H4. unfold fseg. destruct (is_var t) eqn:Hv; [rewrite is_var_fsz by exact Hv; reflexivity|].
+  intros Hf. unfold fseg. destruct (is_var t) eqn:Hv; [rewrite is_var_fsz by exact Hv; reflexivity|].
   destruct (is_vnull v) eqn:Hn.
   - rewrite blen_repeat. pose proof (fsz_nonneg t). lia.
   - apply payload_fixed_len; assumption.
 Qed.
 
-Lemma has_float4_cons t s v r : has_float4 (t :: s) (v :: r) = nf4 t v || has_float4 s r.
-Proof. reflexivity. Qed.
-
-Lemma fsegs_len s : forall row, fits_cols s row = true -> has_float4 s row = false ->
+Lemma fsegs_len s : forall row, fits_cols s row = true ->
   blen (fsegs s row) = total_fixed s.
 Proof.
-  induction s as [|t s IH]; intros [|v r] Hf H4; cbn [fits_cols] in Hf; try discriminate; [reflexivity|].
+  induction s as [|t s IH]; intros [|v r] Hf; cbn [fits_cols] in Hf; try discriminate; [reflexivity|].
   apply andb_true_iff in Hf. destruct Hf as [Hf Hr].
-  rewrite has_float4_cons in H4. apply orb_false_iff in H4. destruct H4 as [H4 H4r].
   cbn [fsegs total_fixed]. rewrite blen_app, fseg_len, IH by assumption. reflexivity.
 Qed.
 
@@ -287,7 +280,7 @@ Proof. reflexivity. Qed.
 Lemma set_row_closed :
   forall todo rtodo done rdone st,
     length done = length rdone ->
-    fits_cols todo rtodo = true -> has_float4 todo rtodo = false ->
+    fits_cols todo rtodo = true ->
     fd st = fsegs done rdone ++ repeat 0 (Z.to_nat (total_fixed todo)) ->
     vd st = vsegs done rdone ++ repeat [] (nvars todo) ->
     blen (fsegs done rdone) = total_fixed done -> length (vsegs done rdone) = nvars done ->
@@ -301,14 +294,13 @@ Lemma set_row_closed :
       (forall j, (j < length todo)%nat ->
                  bit (nb st') (Z.of_nat (length done + j)) = is_vnull (nth j rtodo VNull)).
 Proof.
-  induction todo as [|t todo IH]; intros rtodo done rdone st Hlen Hfit H4 Hfd Hvd Hfl Hvl Hbm.
+  induction todo as [|t todo IH]; intros rtodo done rdone st Hlen Hfit Hfd Hvd Hfl Hvl Hbm.
   - destruct rtodo; [|discriminate Hfit]. exists st. cbn [set_row].
     rewrite !app_nil_r. cbn [total_fixed nvars filter length repeat] in *.
     change (Z.to_nat 0) with O in Hfd. cbn [repeat] in Hfd. rewrite app_nil_r in Hfd, Hvd.
     repeat split; auto. intros j Hj. cbn [length] in Hj. lia.
   - destruct rtodo as [|v rtodo]; [discriminate Hfit|].
     cbn [fits_cols] in Hfit. apply andb_true_iff in Hfit. destruct Hfit as [Hf Hfr].
-    rewrite has_float4_cons in H4. apply orb_false_iff in H4. destruct H4 as [H4 H4r].
     set (idx := Z.of_nat (length done)).
     assert (Hidx : 0 <= idx < ncols (done ++ t :: todo)).
     { unfold idx, ncols. rewrite app_length. cbn [length]. lia. }
@@ -360,7 +352,7 @@ Proof.
         + (* fixed width *)
           unfold set_fixed_bytes. rewrite clear_bit_ok by lia.
           unfold idx. rewrite fixed_offset_split. fold idx.
-          pose proof (payload_fixed_len t v Hf Hn Hv H4) as Hpl.
+          pose proof (payload_fixed_len t v Hf Hn Hv) as Hpl.
           pose proof (fsz_nonneg t) as Hz. pose proof (total_fixed_nonneg todo) as Hz'.
           assert (Hfdl : blen (fd st) = total_fixed done + fsz t + total_fixed todo).
           { rewrite Hfd, blen_app, blen_repeat, Hfl. cbn [total_fixed]. lia. }
@@ -379,7 +371,7 @@ Proof.
     destruct Hstep as [st1 [Hs1 [Hfd1 [Hvd1 [Hnb1 Hbit1]]]]].
     assert (Hlen1 : length (done ++ [t]) = length (rdone ++ [v])) by (rewrite !app_length; cbn [length]; lia).
     assert (Hfits1 : fits_cols (done ++ [t]) (rdone ++ [v]) = true -> True) by auto.
-    specialize (IH rtodo (done ++ [t]) (rdone ++ [v]) st1 Hlen1 Hfr H4r Hfd1 Hvd1).
+    specialize (IH rtodo (done ++ [t]) (rdone ++ [v]) st1 Hlen1 Hfr Hfd1 Hvd1).
     assert (Hfl1 : blen (fsegs (done ++ [t]) (rdone ++ [v])) = total_fixed (done ++ [t])).
     { rewrite fsegs_app by exact Hlen. cbn [fsegs]. rewrite app_nil_r, blen_app, Hfl, total_fixed_app.
       cbn [total_fixed]. rewrite fseg_len by assumption. lia. }
